@@ -44,7 +44,7 @@ def sweep_families(quick):
 def judge_lin(ctx, trace, kd, chunk=6000):
     """Returns (n_runs, strict_ok:set, relaxed_ok:dict run->list, states, transitions). Run numbers are 1-based lines of `trace`."""
     lines = lib.read_lines(trace)
-    cfg = ctx.path("t_lin.cfg")
+    cfg = ctx.path("t_lin_" + os.path.basename(trace).replace(".ndjson", "") + ".cfg")     # one per trace: batches run side by side
     lib.write_cfg(cfg, {"KnownDeviations": lib.tla_set(kd)}, "TInit", "TNext", invariants=["Emit", "Count"])
     parts = []
     for i in range(0, len(lines), chunk):
@@ -171,17 +171,34 @@ def pinned_designs(ctx):
         raise lib.ToolError(f"a pinned design was NOT refuted by TLC (vacuous invariant?): {out}")
 
 
-def random_runs(ctx, target, n, tasks, ops, keys, kd, tag):
+def random_compute(ctx, target, n, tasks, ops, keys, kd, tag):
+    """driver + monitor for one batch of seeded random programs (no reporting: may run in a worker thread)"""
     trace = ctx.path(f"trace_{target}_{tag}.ndjson")
     d = lib.run_driver("drv_conc", ["--target", target, "--random", n, "--tasks", tasks, "--ops", ops, "--keys", keys, "--out", trace],
                        env={"VERIF_SEED": ctx.seed + hash(tag) % 1000})
-    nr, strict, relaxed, st, tr = judge_lin(ctx, trace, kd)
+    return (target, tasks, ops, keys, trace, d) + judge_lin(ctx, trace, kd)
+
+
+def random_report(ctx, job):
+    target, tasks, ops, keys, trace, d, nr, strict, relaxed, st, tr = job
     bad, _ = classify(ctx, trace, f"random {target} {tasks}x{ops} keys={keys} seed={ctx.seed}", nr, strict, relaxed)
-    ctx.stage("random", target=target, runs=nr, linearizable=len(strict), known_deviation=len(relaxed), not_linearizable=bad, hangs=d.get("hangs", 0))
+    ctx.stage("random", target=target, tasks=tasks, ops=ops, keys=keys, runs=nr, linearizable=len(strict), known_deviation=len(relaxed), not_linearizable=bad, hangs=d.get("hangs", 0))
     ctx.cov["monitor_states"] = ctx.cov.get("monitor_states", 0) + st
     if len(ctx.cov["samples"]) < 3:
         ctx.cov["samples"].append(json.loads(lib.read_lines(trace)[0]))
     return nr
+
+
+def random_runs(ctx, target, n, tasks, ops, keys, kd, tag):
+    return random_report(ctx, random_compute(ctx, target, n, tasks, ops, keys, kd, tag))
+
+
+def random_batch(ctx, jobs, kd):
+    """several batches side by side (each is one driver process + chunked monitor runs); verdicts are reported from
+    the calling thread, in the order of `jobs`"""
+    with ThreadPoolExecutor(max_workers=3) as ex:
+        futs = [ex.submit(random_compute, ctx, *j[:5], kd, j[5]) for j in jobs]
+        return sum(random_report(ctx, f.result()) for f in futs)
 
 
 def selftest(ctx, trace, kd):
@@ -255,20 +272,15 @@ def run(ctx):
             total += n
     pinned_designs(ctx)
     nrand = 3000 if ctx.quick else 12000
-    total += random_runs(ctx, "mem", nrand, 3, 3, 2, kd, "m332")
-    total += random_runs(ctx, "mem", nrand, 2, 3, 1, kd, "m231")
-    total += random_runs(ctx, "disk", nrand, 2, 2, 2, kd, "d222")
-    total += random_runs(ctx, "disk", nrand // 2, 3, 2, 1, kd, "d321")
-    total += random_runs(ctx, "diskc", nrand // 2, 3, 3, 2, kd, "s332")
-    total += random_runs(ctx, "memc", nrand // 2, 3, 3, 2, kd, "c332")
-    # DynamicContainer (write/read/query/remove + close/reopen probe), same monitor
-    total += random_runs(ctx, "dyn", nrand // 2, 3, 2, 2, kd, "y322")
-    total += random_runs(ctx, "dyn", nrand // 4, 2, 3, 1, kd, "y231")
-    # long histories on real parallel threads (no schedule): windows that lie between sched points are only
-    # reachable this way; 4 tasks x 20 operations, judged by the same monitor
+    # DynamicContainer (write/read/query/remove + close/reopen probe) goes through the same monitor.
+    # Long histories on real parallel threads (no schedule): windows that lie between sched points are only
+    # reachable this way; 4 tasks x 20 operations.
     nstress = 150 if ctx.quick else 700
-    for target, keys in [("mem", 2), ("disk", 1), ("disk", 2), ("diskc", 2), ("memc", 2), ("dyn", 2), ("dyn", 3)]:
-        total += random_runs(ctx, target, nstress, 4, 20, keys, kd, f"stress_{target}{keys}")
+    jobs = [("mem", nrand, 3, 3, 2, "m332"), ("mem", nrand, 2, 3, 1, "m231"), ("disk", nrand, 2, 2, 2, "d222"), ("disk", nrand // 2, 3, 2, 1, "d321"),
+            ("diskc", nrand // 2, 3, 3, 2, "s332"), ("memc", nrand // 2, 3, 3, 2, "c332"), ("dyn", nrand // 2, 3, 2, 2, "y322"), ("dyn", nrand // 4, 2, 3, 1, "y231")]
+    jobs += [(target, nstress, 4, 20, keys, f"stress_{target}{keys}")
+             for target, keys in [("mem", 2), ("disk", 1), ("disk", 2), ("diskc", 2), ("memc", 2), ("dyn", 2), ("dyn", 3)]]
+    total += random_batch(ctx, jobs, kd)
     ctx.cov["traces_validated_against_impl"] = total
     ctx.cov["evaluations"] = total
     ctx.cov["distinct_nontrivial"] = total
